@@ -270,6 +270,9 @@ func vJsepBehaviour(t *testing.T, tr *vkTrace, sigs *vSigEvents, bh vjBehaviour)
 				pool = offers
 			}
 			var d SessionDescription
+			if src != "latest" && src != "stale" && src != "foreign" && src != "empty" {
+				t.Fatalf("behaviour %d: the model names a description source this driver does not know: %q", bh.ID, src)
+			}
 			switch {
 			case src == "latest" && len(pool) > 0:
 				d = pool[len(pool)-1]
@@ -299,6 +302,9 @@ func vJsepBehaviour(t *testing.T, tr *vkTrace, sigs *vSigEvents, bh vjBehaviour)
 		case "SetRemote":
 			ty := vSDPType(st.Type)
 			var d SessionDescription
+			if src != "peer" && src != "peerx" && src != "empty" {
+				t.Fatalf("behaviour %d: the model names a description source this driver does not know: %q", bh.ID, src)
+			}
 			switch {
 			case src == "empty":
 				d = SessionDescription{Type: ty}
